@@ -5,6 +5,7 @@ package sm2
 import (
 	"fmt"
 	"math/big"
+	"strings"
 	"testing"
 
 	"github.com/bilibili/smgo/zzverif/hk"
@@ -107,7 +108,11 @@ func c01run(r *hk.Reporter, c *c01case) {
 	if !ref.SM2Verify(px, py, e, rr, ss) {
 		r.Violation("signature-rejected-by-reference-verifier:"+c.entry, detail())
 	}
-	r.Eval(fmt.Sprintf("%s:privlen=%d,lz(r)=%d,lz(s)=%d,lz(t)=%d", c.entry, len(c.priv), lzClass(rI), lzClass(sI), lzClass(t)))
+	if strings.HasPrefix(c.label, "retry-after-") {
+		r.Eval(fmt.Sprintf("%s:%s,consumed=%d", c.entry, c.label, rd.off))
+	} else {
+		r.Eval(fmt.Sprintf("%s:privlen=%d,lz(r)=%d,lz(s)=%d,lz(t)=%d", c.entry, len(c.priv), lzClass(rI), lzClass(sI), lzClass(t)))
+	}
 	r.Count(fmt.Sprintf("lz_r_%d", lzClass(rI)), 1)
 	r.Count(fmt.Sprintf("lz_s_%d", lzClass(sI)), 1)
 	r.Count(fmt.Sprintf("lz_t_%d", lzClass(t)), 1)
@@ -166,6 +171,35 @@ func TestVerifC01(t *testing.T) {
 				}
 				cases = append(cases, &c01case{entry: "hashed", d: d, priv: priv, e: e, stream: append(ref.B32(k), rng.Bytes(64)...),
 					chunk: []int{0, 1, 7}[len(cases)%3], label: fmt.Sprintf("solved-%s-%s", kind, tg.Text(16))})
+			}
+		}
+	}
+	// (a2) nonce streams whose first in-range candidate is rejected LATE (r=0, r+k=n, s=0: needs a
+	// digest solved from k1 and d) or early (k=0, k>=n), followed by an acceptable candidate: the
+	// signature produced after the retry must still verify
+	for ki, d := range solvedKeys {
+		for _, rule := range []string{"r=0", "r+k=n", "s=0", "k=0", "k>=n"} {
+			for rep := 0; rep < hk.N(2, 6); rep++ {
+				k1 := randScalar(rng)
+				x1 := ref.BaseMulFast(k1).X
+				e := rng.Bytes(32)
+				first := ref.B32(k1)
+				switch rule {
+				case "r=0":
+					e = ref.B32(ref.ModN(new(big.Int).Neg(x1)))
+				case "r+k=n":
+					e = ref.B32(ref.ModN(new(big.Int).Sub(new(big.Int).Sub(nI, k1), x1)))
+				case "s=0":
+					rT := ref.ModN(new(big.Int).Mul(k1, ref.InvN(d)))
+					e = ref.B32(ref.ModN(new(big.Int).Sub(rT, x1)))
+				case "k=0":
+					first = make([]byte, 32)
+				default:
+					first = ref.B32(new(big.Int).Add(nI, bi(int64(rep))))
+				}
+				stream := append(append([]byte{}, first...), ref.B32(randScalar(rng))...)
+				stream = append(stream, rng.Bytes(64)...)
+				cases = append(cases, &c01case{entry: "hashed", d: d, priv: ref.B32(d), e: e, stream: stream, chunk: []int{0, 1, 7}[(ki+rep)%3], label: "retry-after-" + rule})
 			}
 		}
 	}
